@@ -47,6 +47,7 @@ def dispatch (line : String) : String :=
     | "pcap" => PcapDrv.run args
     | "fread" => FileDrv.runRead args
     | "fwrite" => FileDrv.runWrite args
+    | "fwriten" => FileDrv.runWriteN args
     | "iofault" => IoFaultDrv.run args
     | "symtab" => SymtabDrv.run args
     | "cli" => CliDrv.run args
